@@ -1,6 +1,7 @@
 package dagutils
 
 import (
+	"bytes"
 	"context"
 	"fmt"
 	"path"
@@ -111,7 +112,10 @@ func Diff(ctx context.Context, ds ipld.DAGService, a, b ipld.Node) ([]*Change, e
 	linksA := a.Links()
 	linksB := b.Links()
 
-	if !okA || !okB || (len(linksA) == 0 && len(linksB) == 0) {
+	// Link-level changes cannot express a change of the node's own Data (for
+	// example a directory replaced by a file, or the reverse): report the node
+	// as modified instead of diffing its links.
+	if !okA || !okB || (len(linksA) == 0 && len(linksB) == 0) || !bytes.Equal(cleanA.Data(), cleanB.Data()) {
 		return []*Change{{Type: Mod, Before: a.Cid(), After: b.Cid()}}, nil
 	}
 
